@@ -7,6 +7,12 @@ F: the REAL bytes are fed to the specification terminal (Tup.Spec.Term, ECMA-48 
    every cell of the requested rectangle must decode to (id, placement id, row, col) at the
    position of DESIGN.md A.5 (scrolling included), no placeholder cell anywhere else, and the
    cursor must end where A.5 says.
+Sequence cases (k = "seq"): 2..6 calls made by ONE program — each run in its own fresh process
+   (ph_util.Isolated), so what the library keeps between calls (module-level caches, shared default
+   objects, per-object caches) comes from the sequence alone and the case replays from its JSON —
+   through print_placeholder's keyword-only form (default-valued fields left out), its object form,
+   object + keyword overrides, and the ImagePlaceholder methods on re-used objects; EVERY call's
+   bytes are judged (K and F) against what that call requested.
 """
 from __future__ import annotations
 
@@ -50,12 +56,23 @@ def byte_pids():
 
 
 # ---------------------------------------------------------------------------------------
-def _requests(c):
-    """Run the real code on the case; return (impl, [driver request lines])."""
+def _impl(c):
+    """the real code on a single case (in this process)"""
     k = c["k"]
     p, m, f = c["ph"], c["mode"], c.get("fmt", {"t": "n"})
     if k == "lines":
-        st, lines = U.impl_lines(p, m, f, c.get("noesc", 0))
+        return U.impl_lines(p, m, f, c.get("noesc", 0))
+    if k == "stream":
+        return U.impl_stream(c["style"], p, m, f, c.get("via", "direct"), None, c)
+    raise ValueError(k)
+
+
+def _reqs(c, impl):
+    """driver request lines of a single case / of one call of a sequence, given what the real code produced"""
+    k = c["k"]
+    p, m, f = c["ph"], c["mode"], c.get("fmt", {"t": "n"})
+    if k == "lines":
+        st, lines = impl
         reqs = [U.req_lines(p, m, f, c.get("noesc", 0))]
         if st == "ok" and not c.get("noesc", 0) and U.in_domain(p):
             C = p[4] - p[2]
@@ -63,21 +80,35 @@ def _requests(c):
             W = max(x0 + C, C) + c.get("slack", 1)
             data = b"\r\n".join(lines)
             reqs.append(U.req_spec(W, len(lines), x0, 0, 1, 1, 0, c.get("sgr", ["-", "-", "-"]), data))
-        return (st, lines), reqs
+        return reqs
     if k == "stream":
         style = c["style"]
-        st, data = U.impl_stream(style, p, m, f, c.get("via", "direct"))
+        st, data = impl
         reqs = [U.req_stream(style, p, m, f)]
         if st == "ok" and U.in_domain(p) and not (style[0] == "lfall" and style[1]):
             onlcr = 1 if (style[0] == "lfall" or (style[0] == "cur" and style[2]) or (style[0] == "disp" and style[1] is None and style[3])) else 0
             reqs.append(U.req_spec(c["W"], c["H"], c["x0"], c["y0"], c.get("cub", 1), c.get("rs", 1), onlcr,
                                    c.get("sgr", ["-", "-", "-"]), data))
-        return (st, data), reqs
+        return reqs
     raise ValueError(k)
+
+
+def _requests(c, res=None):
+    """Run the real code on the case; return (impl, [driver request lines]).
+    A sequence case (k = "seq") runs in its own fresh process (U.isolated); `res` = its result if already there."""
+    if c["k"] == "seq":
+        if res is None:
+            res = U.isolated().run_many([c["calls"]])[0]
+        return U.seq_requests(c, res, _reqs)
+    impl = _impl(c)
+    return impl, _reqs(c, impl)
 
 
 def _judge(ctx: Ctx, c, impl, replies):
     k = c["k"]
+    if k == "seq":
+        U.seq_judge(ctx, c, impl, replies, _judge, check_case)
+        return
     p = c["ph"]
     st, out = impl
     ctx.count("kind:" + k)
@@ -157,14 +188,16 @@ def check_case(ctx: Ctx, c: dict):
 def run_batch(ctx: Ctx, batch):
     if not batch:
         return
-    prepared = [(c,) + _requests(c) for c in batch]
+    seqs = [c for c in batch if c["k"] == "seq"]
+    done = iter(U.isolated().run_many([c["calls"] for c in seqs])) if seqs else iter(())
+    prepared = [(c,) + _requests(c, next(done) if c["k"] == "seq" else None) for c in batch]
     flat = [r for (_, _, reqs) in prepared for r in reqs]
     replies = ctx.driver("drv_ph").ask_many(flat)
     i = 0
     for c, impl, reqs in prepared:
         _judge(ctx, c, impl, replies[i:i + len(reqs)])
         i += len(reqs)
-        ctx.case(c, nontrivial=(impl[0] == "ok"))
+        ctx.case(c, nontrivial=(impl[0] == "ok" or (impl[0] == "seq" and any(r[0] == "ok" for r in impl[1]))))
 
 
 # ---------------------------------------------------------------------------------------
@@ -204,6 +237,124 @@ def stream_case(rng, p, m, f=None, style=None, via=None):
     if via != "direct":
         c["via"] = via
     return c
+
+
+# ---------------------------------------------------------------------------------------
+# sequences of calls in one process
+# ---------------------------------------------------------------------------------------
+def fresh_request(rng, ids, pids, modes):
+    """a request (ph, mode, style) with the defaults (placement 0, start column 0, start row 0) well represented"""
+    i = rng.choice(ids)
+    pid = rng.choice([0, 0, 0, 1, 5, 255, 256, 0xFFFFFF, rng.choice(pids)])
+    sc = rng.choice([0, 0, 0, 1, 2, 3, 295])
+    sr = rng.choice([0, 0, 0, 1, 2, 5, 295])
+    p = [i, pid, sc, sr, sc + rng.choice([1, 2, 3, 4]), sr + rng.choice([1, 1, 2, 3])]
+    m = rng.choice(modes) if rng.random() < 0.6 else list(U.DEFAULT_MODE)
+    return dict(ph=p, mode=m, style=rand_disp_style(rng))
+
+
+def rand_disp_style(rng):
+    if rng.random() < 0.25:
+        return ["disp", [rng.choice([0, 1, 4]), rng.choice([0, 1, 3])], rng.randrange(2), 0]
+    return ["disp", None] + rng.choice([[1, 0], [1, 0], [0, 0], [1, 1], [0, 1]])
+
+
+def neighbour_request(rng, q, ids, pids, modes):
+    """q with ONE or TWO parameters changed — what tells a memo / a shared object keyed on too little from a correct one"""
+    q = dict(ph=list(q["ph"]), mode=list(q["mode"]), style=q["style"])
+    p = q["ph"]
+    for what in rng.sample(["id", "pid", "sc", "sr", "ec", "er", "mode", "style"], rng.choice([1, 1, 2])):
+        if what == "id":
+            p[0] = rng.choice(ids)
+        elif what == "pid":
+            p[1] = 0 if p[1] else rng.choice([1, 5, 256, 0xFFFFFF])
+        elif what == "sc":
+            w = p[4] - p[2]
+            p[2] = 0 if p[2] else rng.choice([1, 2, 3])
+            p[4] = p[2] + w
+        elif what == "sr":
+            h = p[5] - p[3]
+            p[3] = 0 if p[3] else rng.choice([1, 2, 5])
+            p[5] = p[3] + h
+        elif what == "ec":
+            p[4] = p[2] + rng.choice([x for x in (1, 2, 3, 4, 5) if x != p[4] - p[2]])
+        elif what == "er":
+            p[5] = p[3] + rng.choice([x for x in (1, 2, 3, 4) if x != p[5] - p[3]])
+        elif what == "mode":
+            m = q["mode"]
+            j = rng.randrange(5)
+            m[j] = (1 - m[j]) if j < 3 else rng.choice([x for x in ((1, 2, 3, 4) if j == 3 else (0, 1, 2, 3, 4)) if x != m[j]])
+        else:
+            q["style"] = rand_disp_style(rng)
+    return q
+
+
+def realise(rng, q, fmt=None):
+    """one call for the request q: which entry point, how the six fields are passed, on which objects, where it is shown"""
+    p, m, style = list(q["ph"]), list(q["mode"]), q["style"]
+    r = rng.random()
+    extra = {}
+    if r < 0.6:
+        via = "term"
+        e = rng.random()
+        if e < 0.45:
+            # keyword-only form: a field whose requested value is the default 0 is usually LEFT OUT
+            over = [i for i in range(6) if p[i] != 0 or rng.random() < 0.3]
+            if rng.random() < 0.04:
+                drop = rng.choice([0, 4, 5])          # a required field left out: the call must raise
+                p[drop] = 0
+                over = [i for i in over if i != drop]
+            extra["form"] = {"base": None, "over": over}
+        elif e < 0.7:
+            extra["form"] = {"base": "obj", "over": [], "junk": [0] * 6}
+        else:
+            over = sorted(rng.sample(range(6), rng.randrange(1, 6)))
+            extra["form"] = {"base": "obj", "over": over, "junk": [rng.choice([0, 1, 3, 7, 9, 300]) for _ in range(6)]}
+        extra["tid"] = rng.choice([0, 0, 1])
+    elif r < 0.8:
+        via = "direct"
+    elif r < 0.9:
+        via = "direct"
+        style = rng.choice([["cur", 1, 0], ["cur", 0, 0], ["cur", 1, 1], ["lfall", 0], ["lfall", 1], ["abs", rng.choice([0, 2]), rng.choice([0, 1])]])
+    else:
+        via = None                                     # to_lines
+    if rng.random() < 0.5:
+        extra["omitopt"] = 1
+    slot = rng.choice([None, 0, 0, 1])
+    if slot is not None:
+        extra["slot"] = slot
+    if via is None:
+        c = dict(k="lines", ph=p, mode=m, x0=rng.choice([0, 0, 2]), sgr=rng.choice(SGRS))
+        if rng.random() < 0.4:
+            c["noesc"] = 1
+    elif U.in_domain(p):
+        c = stream_case(rng, p, m, style=style, via=via)
+    else:
+        c = dict(k="stream", style=style, ph=p, mode=m, W=10, H=4, x0=0, y0=0)
+        if via != "direct":
+            c["via"] = via
+    if fmt is not None:
+        c["fmt"] = fmt
+    c.update(extra)
+    return c
+
+
+def seq_cases(rng, n, ids, pids, modes, fmt_fn=None):
+    """Sequences of 2..6 calls made by one program: each call a fresh request, a repetition, or a neighbour of the
+    previous request, through GraphicsTerminal.print_placeholder (keyword-only form with defaults left out / object /
+    object + keyword overrides; one or two terminal objects) or the ImagePlaceholder methods, on re-used objects."""
+    for _ in range(n):
+        calls, q = [], None
+        for _j in range(rng.choice([2, 2, 3, 3, 4, 6])):
+            r = rng.random()
+            if q is None or r < 0.2:
+                q = fresh_request(rng, ids, pids, modes)
+            elif r < 0.35:
+                pass                                   # the same request again (maybe through another entry point)
+            else:
+                q = neighbour_request(rng, q, ids, pids, modes)
+            calls.append(realise(rng, q, fmt_fn(rng, q["ph"]) if fmt_fn else None))
+        yield dict(k="seq", calls=calls)
 
 
 def cases(ctx: Ctx):
@@ -272,6 +423,8 @@ def cases(ctx: Ctx):
                         p = [rng.choice(fixed_ids), rng.choice([0, 5]), 1, 3, 4, 3 + R]
                         yield dict(k="stream", style=style, ph=p, mode=rng.choice(modes), W=x0 + 3 + slack, H=H, x0=x0, y0=y0,
                                    cub=1, rs=rng.randrange(2), sgr=rng.choice(SGRS))
+    # --- (3) sequences of calls in one process (state kept between calls, keyword form of print_placeholder, call order)
+    yield from seq_cases(rng, 600 if quick else 6000, fixed_ids + ids, pids, modes)
 
 
 def run(ctx: Ctx):
@@ -279,7 +432,11 @@ def run(ctx: Ctx):
                 "classes x rectangles around 0/1/296/297/298 and widths beyond 297, random ids, no_escape, every validate/IndexError "
                 "branch; streams over all styles (at-cursor save/relative/line-feeds, with_linefeeds, absolute, to_stream dispatch, "
                 "GraphicsTerminal.print_placeholder) x terminal geometries forcing 0..rows scrolls and touching the right margin x "
-                "start SGR states x both CSI-u conventions. distinct = canonical JSON of the case; non-trivial = the code produced output "
+                "start SGR states x both CSI-u conventions; sequences of 2..6 calls run in ONE fresh process each (a request, then "
+                "repetitions / requests differing in one or two parameters / new requests) through print_placeholder in its "
+                "keyword-only form with default-valued fields left out, its object form and object + keyword overrides, on one or two "
+                "GraphicsTerminal objects, and through the ImagePlaceholder methods on re-used, re-assigned objects, optional arguments "
+                "given or left out — every call's bytes judged against what THAT call requested. distinct = canonical JSON of the case; non-trivial = the code produced output "
                 "(error-branch cases are counted as trivial)")
     corpus_dir = Path(__file__).resolve().parent.parent / "corpus" / "C07"
     if corpus_dir.is_dir():
